@@ -762,4 +762,289 @@ theorem collapse_core {lv : List (Name × Nat)} {r : BRxn} {lm : List Nat} {rs :
     rw [List.count_append] at h1
     omega
 
+
+/-! ### `_repack_stoichiometries` -/
+
+theorem coefOf_bump (m : List (LName × Int)) (k n : LName) (d : Int) :
+    coefOf (bump m k d) n = coefOf m n + (if k = n then d else 0) := by
+  induction m with
+  | nil =>
+    by_cases h : k = n
+    · subst h; simp [bump, coefOf, List.lookup]
+    · have : (n == k) = false := by simpa using fun e => h e.symm
+      simp [bump, coefOf, List.lookup, this, h]
+  | cons p t ih =>
+    obtain ⟨k', v⟩ := p
+    simp only [bump]
+    by_cases hk : k' = k
+    · subst hk
+      by_cases h : k' = n
+      · subst h; simp [coefOf, List.lookup]
+      · have : (n == k') = false := by simpa using fun e => h e.symm
+        simp [coefOf, List.lookup, this, h]
+    · rw [if_neg hk]
+      by_cases h : n = k'
+      · subst h
+        have : ¬ k = n := fun e => hk e.symm
+        simp [coefOf, List.lookup, this]
+      · have hb : (n == k') = false := by simpa using h
+        simp only [coefOf, List.lookup, hb] at ih ⊢
+        exact ih
+
+theorem coefOf_foldl_bump (l : List LName) (m : List (LName × Int)) (n : LName) (d : Int) :
+    coefOf (l.foldl (fun m k => bump m k d) m) n = coefOf m n + d * (l.count n : Int) := by
+  induction l generalizing m with
+  | nil => simp
+  | cons k l ih =>
+    simp only [List.foldl_cons, ih, coefOf_bump, List.count_cons]
+    by_cases h : k = n
+    · subst h; simp; grind
+    · have : (k == n) = false := by simpa using h
+      simp [h, this]
+
+/-- the coefficient of a name = (its occurrences among the new products) − (among the new
+    substrates) -/
+theorem repack_coef (ns np : List LName) (n : LName) :
+    coefOf (repack ns np) n = (np.count n : Int) - (ns.count n : Int) := by
+  simp only [repack, coefOf_foldl_bump]
+  simp [coefOf]; omega
+
+theorem bump_keys_nodup (m : List (LName × Int)) (k : LName) (d : Int)
+    (h : (m.map (·.1)).Nodup) : ((bump m k d).map (·.1)).Nodup ∧
+      ∀ x, x ∈ (bump m k d).map (·.1) ↔ x = k ∨ x ∈ m.map (·.1) := by
+  induction m with
+  | nil => simp [bump]
+  | cons p t ih =>
+    obtain ⟨k', v⟩ := p
+    simp only [List.map_cons, List.nodup_cons] at h
+    obtain ⟨ih1, ih2⟩ := ih h.2
+    simp only [bump]
+    by_cases hk : k' = k
+    · subst hk
+      simp only [if_true, List.map_cons, List.nodup_cons]
+      exact ⟨h, by intro x; simp⟩
+    · rw [if_neg hk]
+      simp only [List.map_cons, List.nodup_cons, List.mem_cons]
+      refine ⟨⟨?_, ih1⟩, ?_⟩
+      · rw [ih2]; rintro (e | e)
+        · exact hk e
+        · exact h.1 e
+      · intro x; rw [ih2]
+        constructor
+        · rintro (e | e | e) <;> simp [e]
+        · rintro (e | e | e) <;> simp [e]
+
+theorem foldl_bump_keys_nodup (l : List LName) (m : List (LName × Int)) (d : Int)
+    (h : (m.map (·.1)).Nodup) : ((l.foldl (fun m k => bump m k d) m).map (·.1)).Nodup := by
+  induction l generalizing m with
+  | nil => exact h
+  | cons k l ih => exact ih _ (bump_keys_nodup m k d h).1
+
+theorem repack_keys_nodup (ns np : List LName) : ((repack ns np).map (·.1)).Nodup := by
+  unfold repack
+  apply foldl_bump_keys_nodup
+  apply foldl_bump_keys_nodup
+  simp
+
+/-! ### counting over a duplicate-free list of names -/
+
+theorem sum_indicator_nodup {α} [DecidableEq α] (L : List α) (hL : L.Nodup) (y : α) :
+    (L.map fun n => if y = n then (1 : Int) else 0).sum = if y ∈ L then 1 else 0 := by
+  induction L with
+  | nil => simp
+  | cons a L ih =>
+    simp only [List.nodup_cons] at hL
+    simp only [List.map_cons, List.sum_cons, ih hL.2, List.mem_cons]
+    by_cases h : y = a
+    · subst h; simp [hL.1]
+    · simp [h]
+
+theorem sum_count_nodup {α} [DecidableEq α] (L : List α) (hL : L.Nodup) (l : List α) :
+    (L.map fun n => (l.count n : Int)).sum = ((l.filter fun y => decide (y ∈ L)).length : Int) := by
+  induction l with
+  | nil => simp; induction L with
+    | nil => rfl
+    | cons a L ih => simp_all
+  | cons y l ih =>
+    have e : ∀ n, ((y :: l).count n : Int) = (l.count n : Int) + (if y = n then 1 else 0) := by
+      intro n; rw [List.count_cons]; by_cases h : y = n <;> simp [h]
+    simp only [e]
+    have split : (L.map fun n => (l.count n : Int) + (if y = n then 1 else 0)).sum
+        = (L.map fun n => (l.count n : Int)).sum + (L.map fun n => if y = n then (1 : Int) else 0).sum := by
+      clear ih hL e
+      induction L with
+      | nil => simp
+      | cons a L ih => simp only [List.map_cons, List.sum_cons, ih]; omega
+    rw [split, ih, sum_indicator_nodup L hL y, List.filter_cons]
+    by_cases h : y ∈ L <;> simp [h]
+
+/-! ### `_unpack_stoichiometries` -/
+
+theorem unpack_net (st : List (Name × Int)) (x : Name) :
+    (((unpackStoich st).2.count x : Int)) - ((unpackStoich st).1.count x : Int) = netStoich st x := by
+  induction st with
+  | nil => simp [unpackStoich, netStoich]
+  | cons kv rest ih =>
+    obtain ⟨k, v⟩ := kv
+    simp only [unpackStoich, netStoich, List.map_cons, List.sum_cons] at ih ⊢
+    by_cases hv : v < 0
+    · simp only [hv, if_true, List.count_append, List.count_replicate]
+      by_cases hk : k = x
+      · subst hk; simp; omega
+      · have : (k == x) = false := by simpa using hk
+        simp [hk, this]; omega
+    · simp only [hv, if_false, List.count_append, List.count_replicate]
+      by_cases hk : k = x
+      · subst hk; simp; omega
+      · have : (k == x) = false := by simpa using hk
+        simp [hk, this]; omega
+
+
+/-! ### generated names are isotopomers of their base compound -/
+
+theorem binaryLabels_nodup (x : Name) (n : Nat) : (binaryLabels x n).Nodup := by
+  unfold binaryLabels
+  split
+  · exact nodup_map_inj (by intro a b h; simpa using h) (patterns_nodup n)
+  · simp
+
+theorem mem_binaryLabels_base {x : Name} {n : Nat} {m : LName} (h : m ∈ binaryLabels x n) :
+    m.base = x := by
+  unfold binaryLabels at h
+  split at h
+  · obtain ⟨w, _, rfl⟩ := List.mem_map.mp h; rfl
+  · simp at h; subst h; rfl
+
+theorem assignLabel_mem (c : Name) (b : Label) : assignLabel c b ∈ binaryLabels c b.length := by
+  unfold assignLabel binaryLabels
+  by_cases hb : b = []
+  · subst hb; simp
+  · have : b.length > 0 := List.length_pos_iff.mpr hb
+    simp only [ne_eq, hb, not_false_eq_true, if_true, this]
+    exact List.mem_map.mpr ⟨b, mem_patterns.mpr rfl, rfl⟩
+
+theorem assignLabel_base (c : Name) (b : Label) : (assignLabel c b).base = c := by
+  unfold assignLabel; split <;> rfl
+
+/-- among new names built from full-length blocks, those that are isotopomers of `x` are
+    exactly the occurrences of `x` -/
+theorem filter_assignLabels_length (lv : List (Name × Nat)) (cs : List Name) (bl : List Label)
+    (hlen : bl.length = cs.length)
+    (hfull : ∀ p ∈ cs.zip bl, p.2.length = labelsOf lv p.1) (x : Name) :
+    ((assignLabels cs bl).filter fun y => decide (y ∈ binaryLabels x (labelsOf lv x))).length
+      = cs.count x := by
+  induction cs generalizing bl with
+  | nil => simp [assignLabels]
+  | cons c cs ih =>
+    cases bl with
+    | nil => simp at hlen
+    | cons b bl =>
+      simp only [List.length_cons, Nat.add_right_cancel_iff] at hlen
+      have hb : b.length = labelsOf lv c := hfull (c, b) (by simp)
+      have ih' := ih bl hlen (fun p hp => hfull p (by simp [hp]))
+      simp only [assignLabels, List.zipWith_cons_cons] at ih' ⊢
+      rw [List.filter_cons, List.count_cons]
+      by_cases hc : c = x
+      · subst hc
+        have : assignLabel c b ∈ binaryLabels c (labelsOf lv c) := hb ▸ assignLabel_mem c b
+        simp [this, ih']
+      · have : assignLabel c b ∉ binaryLabels x (labelsOf lv x) := by
+          intro hm
+          have := mem_binaryLabels_base hm
+          rw [assignLabel_base] at this
+          exact hc this
+        have hcx : (c == x) = false := by simpa using hc
+        simp [this, ih', hcx]
+
+/-! ### sums over reactions and names -/
+
+theorem sum_map_add {α} (l : List α) (f g : α → Rat) :
+    (l.map fun a => f a + g a).sum = (l.map f).sum + (l.map g).sum := by
+  induction l with
+  | nil => simp; grind
+  | cons a l ih => simp only [List.map_cons, List.sum_cons, ih]; grind
+
+theorem sum_map_mul_right {α} (l : List α) (f : α → Rat) (c : Rat) :
+    (l.map fun a => f a * c).sum = (l.map f).sum * c := by
+  induction l with
+  | nil => simp
+  | cons a l ih => simp only [List.map_cons, List.sum_cons, ih]; grind
+
+theorem sum_map_mul_left {α} (l : List α) (f : α → Rat) (c : Rat) :
+    (l.map fun a => c * f a).sum = c * (l.map f).sum := by
+  induction l with
+  | nil => simp
+  | cons a l ih => simp only [List.map_cons, List.sum_cons, ih]; grind
+
+theorem sum_map_zero {α} (l : List α) : (l.map fun _ => (0 : Rat)).sum = 0 := by
+  induction l with
+  | nil => rfl
+  | cons a l ih => simp only [List.map_cons, List.sum_cons, ih]; grind
+
+theorem sum_swap {α β} (L : List α) (rs : List β) (f : α → β → Rat) :
+    (L.map fun n => (rs.map fun rx => f n rx).sum).sum
+      = (rs.map fun rx => (L.map fun n => f n rx).sum).sum := by
+  induction rs with
+  | nil => simp [sum_map_zero]
+  | cons rx rs ih =>
+    simp only [List.map_cons, List.sum_cons]
+    rw [sum_map_add, ih]
+
+theorem intCast_sum (l : List Int) :
+    ((l.sum : Int) : Rat) = (l.map fun (i : Int) => (i : Rat)).sum := by
+  induction l with
+  | nil => simp
+  | cons a l ih => simp only [List.sum_cons, List.map_cons, ← ih, Rat.intCast_add]
+
+
+theorem sum_map_sub_int {α} (l : List α) (f g : α → Int) :
+    (l.map fun a => f a - g a).sum = (l.map f).sum - (l.map g).sum := by
+  induction l with
+  | nil => simp
+  | cons a l ih => simp only [List.map_cons, List.sum_cons, ih]; omega
+
+theorem gen_of_mem {lv : List (Name × Nat)} {r : BRxn} {lm : List Nat} {rs : List LRxn}
+    (h : isotopomerReactions lv r lm = .ok rs) :
+    ∀ rx ∈ rs, ∃ w ∈ patterns (nSub lv r), ∃ ps,
+      mapSubstratesToProducts (w ++ extOf lv r) lm = .ok ps ∧
+      rx = isoRxnOf r (subsOf r) (prodsOf r) (labelsPer lv (subsOf r))
+            (labelsPer lv (prodsOf r)) (extOf lv r) w ps :=
+  forall₂_forall (isotopomerReactions_ok h).2
+
+/-- summed over the isotopomers of `x`, a generated reaction has the base coefficient of `x` -/
+theorem unit_stoich_isoRxnOf (lv : List (Name × Nat)) (r : BRxn) (lm : List Nat) (w ps : Label)
+    (hw : w ∈ patterns (nSub lv r))
+    (hps : mapSubstratesToProducts (w ++ extOf lv r) lm = .ok ps)
+    (hwf : nProd lv r ≤ lm.length) (x : Name) :
+    ((binaryLabels x (labelsOf lv x)).map
+        (coefOf (isoRxnOf r (subsOf r) (prodsOf r) (labelsPer lv (subsOf r))
+          (labelsPer lv (prodsOf r)) (extOf lv r) w ps).stoich)).sum
+      = netStoich r.stoich x := by
+  have hlen : w.length = nSub lv r := mem_patterns.mp hw
+  have hpslen : ps.length = lm.length := by
+    rw [((msp_ok_iff _ _ _).mp hps).2]; simp
+  simp only [isoRxnOf]
+  have e : (fun n => coefOf (repack
+      (assignLabels (subsOf r) (splitLabel (w ++ extOf lv r) (labelsPer lv (subsOf r))))
+      (assignLabels (prodsOf r) (splitLabel ps (labelsPer lv (prodsOf r))))) n)
+      = fun n => ((assignLabels (prodsOf r) (splitLabel ps (labelsPer lv (prodsOf r)))).count n : Int)
+          - ((assignLabels (subsOf r) (splitLabel w (labelsPer lv (subsOf r)))).count n : Int) := by
+    funext n
+    rw [repack_coef, splitLabel_append w _ _ (by rw [hlen]; exact Nat.le_refl _)]
+  rw [show coefOf (repack
+      (assignLabels (subsOf r) (splitLabel (w ++ extOf lv r) (labelsPer lv (subsOf r))))
+      (assignLabels (prodsOf r) (splitLabel ps (labelsPer lv (prodsOf r))))) = _ from e]
+  rw [sum_map_sub_int, sum_count_nodup _ (binaryLabels_nodup _ _),
+    sum_count_nodup _ (binaryLabels_nodup _ _)]
+  have h1 := filter_assignLabels_length lv (prodsOf r)
+    (splitLabel ps (labelsPer lv (prodsOf r))) (by simp [splitLabel_length, labelsPer])
+    (splitLabel_zip_eq (labelsOf lv) (prodsOf r) ps (by
+      show (labelsPer lv (prodsOf r)).sum ≤ _; rw [hpslen]; exact hwf)) x
+  have h2 := filter_assignLabels_length lv (subsOf r)
+    (splitLabel w (labelsPer lv (subsOf r))) (by simp [splitLabel_length, labelsPer])
+    (splitLabel_zip_eq (labelsOf lv) (subsOf r) w (by
+      show (labelsPer lv (subsOf r)).sum ≤ _; rw [hlen]; exact Nat.le_refl _)) x
+  rw [h1, h2]
+  exact unpack_net r.stoich x
+
 end Mxl.C05
